@@ -8,6 +8,7 @@
 //! and exits 1 when the outcome demonstrates a violation (panic, abort, or the
 //! entry's own property check failed), 0 otherwise.
 use serde_json::Value;
+mod ported;
 use std::io::Read;
 use std::process::Command;
 
@@ -47,6 +48,9 @@ fn bytes_of(v: &Value, key: &str) -> Vec<u8> {
 /// property allows), Err(description) when the entry's own check found a violation.
 fn run(v: &Value) -> Result<String, String> {
     let entry = v["entry"].as_str().expect("entry");
+    if let Some(r) = ported::run(entry, v) {
+        return r;
+    }
     match entry {
         "header_decode" => {
             let b = bytes_of(v, "input");
@@ -417,6 +421,9 @@ fn run(v: &Value) -> Result<String, String> {
                             let path = dir.join(format!("out-{cname}-{n}-{fail}-{which}-{pre_existing}.bin"));
                             let part = { let mut s = path.file_name().unwrap().to_os_string(); s.push(".svspart"); path.with_file_name(s) };
                             if pre_existing { std::fs::File::create(&path).unwrap().write_all(b"previous").unwrap(); }
+                            // a neighbour that shares the destination's stem: a pull may touch its destination and its own temp file only
+                            let neighbour = path.with_extension("svspart");
+                            std::fs::write(&neighbour, b"neighbour").unwrap();
                             let r: Result<(), String> = if which == "sync" {
                                 repe::pull_to_file(&client, &res, &path).map_err(|e| e.to_string())
                             } else {
@@ -436,6 +443,10 @@ fn run(v: &Value) -> Result<String, String> {
                                 if now != expect { return Err(format!("[{cname}] {which} pull_to_file({res}) published {} bytes that differ from the {} produced", now.len(), n)); }
                             }
                             if part.exists() { return Err(format!("[{cname}] {which} pull_to_file({res}) left a temp file behind")); }
+                            if std::fs::read(&neighbour).ok().as_deref() != Some(&b"neighbour"[..]) {
+                                return Err(format!("[{cname}] {which} pull_to_file({res}) to {:?} clobbered or removed the unrelated file {:?}", path.file_name().unwrap(), neighbour.file_name().unwrap()));
+                            }
+                            let _ = std::fs::remove_file(&neighbour);
                         }
                     }
                 }
@@ -1414,6 +1425,28 @@ fn run(v: &Value) -> Result<String, String> {
                 if let Some(want) = tokens(path) {
                     let got = repe::parse_json_pointer(path);
                     if got != want { return Err(format!("parse_json_pointer({path:?}) = {got:?}; RFC 6901 tokens are {want:?}")); }
+                }
+            }
+            // the public evaluator: eval_json_pointer(doc, p) walks doc along parse_json_pointer(p) ("" is the whole document, "/" is the member named "")
+            {
+                let docs = [
+                    json!({"": "empty-key", "a": {"": 1, "b": [10, {"c": null}], "~": "t", "/": "s"}, "r": {"x": 1}, "s": [0, 1], "0": "zero"}),
+                    json!([["x", {"": 5}], 2]),
+                    json!("scalar"),
+                    json!({"a": 1}),
+                ];
+                let mut ptrs: Vec<String> = paths.clone();
+                for extra in ["", "/", "//", "/a", "/a/", "/a//", "/a/b/0", "/a/b/1/c", "/a/b/2", "/a/b/01", "/a/~0", "/a/~1", "/0", "/0/1/", "/0/1", "/1", "a", "/s/1", "/s/-", "/r/x", "/r/x/"] { ptrs.push(extra.to_string()); }
+                for doc in &docs {
+                    for ptr in &ptrs {
+                        let toks = repe::parse_json_pointer(ptr);
+                        let mut cur = Some(doc);
+                        for t in &toks {
+                            cur = match cur { Some(serde_json::Value::Object(m)) => m.get(t), Some(serde_json::Value::Array(a)) => t.parse::<usize>().ok().and_then(|i| a.get(i)), _ => None };
+                        }
+                        let got = repe::eval_json_pointer(doc, ptr);
+                        if got != cur { return Err(format!("eval_json_pointer({doc}, {ptr:?}) = {got:?}; walking the document along the tokens {toks:?} gives {cur:?}")); }
+                    }
                 }
             }
             // registration orders: 0 = exact routes, 1 = registry mount, 2 = struct mount, 3 = middleware
